@@ -370,6 +370,7 @@ pub fn concurrent(rng: &mut gen::R, tables: usize, buckets: usize, style: usize,
         h = mix(h, (o.thread as u64) << 1 | o.insert as u64);
     }
     rep.distinct(h);
+    rep.aux_distinct("operation_interleavings", h);
     true
 }
 
